@@ -214,14 +214,16 @@ def run_case(ctx, case, count=True):
     import dask
     from dask.core import flatten
     from dask_array._frisky.graph_records import GraphRecordsLayer
+    from harness.props_ext import c21_fused as CF
     from harness.props_ext import c21_nested as CN
 
     prog = case.get("prog") or []
-    container = case.get("kind") == "container"
+    fused = case.get("kind") == "fused"
+    container = case.get("kind") == "container" or fused  # built by a builder of its own, with a NumPy witness
     fails = []
     with dask.config.set({"array.optimize-graph": case["optimize"]}):
         try:
-            env = CN.build_container(case) if container else programs.run_da_ext(prog)
+            env = CF.build_fused(case) if fused else CN.build_container(case) if container else programs.run_da_ext(prog)
         except NotImplementedError:
             ctx.notes["refused_at_construction"] = ctx.notes.get("refused_at_construction", 0) + 1
             return None
@@ -229,7 +231,7 @@ def run_case(ctx, case, count=True):
             # raising while the program is BUILT is not a statement about graphs / schedules / records
             # (e.g. broadcasting a length-1 axis chunked (0, 1)); counted with an example, reported
             ctx.notes["construction_raised"] = ctx.notes.get("construction_raised", 0) + 1
-            ctx.notes.setdefault("construction_raised_example", f"{type(e).__name__}: {str(e)[:100]} :: {[st['op'] for st in prog] or case.get('api')}")
+            ctx.notes.setdefault("construction_raised_example", f"{type(e).__name__}: {str(e)[:100]} :: {[st['op'] for st in prog] or case.get('api') or case.get('expr')}")
             return None
         xs = [env[r] for r in case["roots"]]
         label = "+".join(case["roots"])
@@ -289,7 +291,7 @@ def run_case(ctx, case, count=True):
             except Exception as e2:
                 ctx.notes["both_paths_raise"] = ctx.notes.get("both_paths_raise", 0) + 1
                 if container:
-                    ctx.notes.setdefault("both_paths_raise_example(container)", f"{msg[:120]} :: {case['api']} {case.get('rand') or ''} pre={case.get('pre')} post={case.get('post')}")
+                    ctx.notes.setdefault("both_paths_raise_example(container)", f"{msg[:120]} :: {case.get('api') or case.get('expr')} {case.get('rand') or ''} pre={case.get('pre')} post={case.get('post')}")
                 return None
             # narrow class: the collection's own metadata raises (the records path is the first to look at it, `compute()` never
             # does): e.g. a random distribution without explicit-parameter expression class given dask arrays as parameters
@@ -316,7 +318,7 @@ def run_case(ctx, case, count=True):
         if container:
             # third witness: NumPy.  A dask graph that itself differs from NumPy is outside this property (both paths
             # are built from the same layers): noted with an example, the comparison records ~ dask graph is skipped
-            want_np = CN.expected_container(case)
+            want_np = env["_expected"] if fused else CN.expected_container(case)
             for r, x in zip(case["roots"], xs):
                 if r not in want_np:
                     continue
@@ -326,10 +328,10 @@ def run_case(ctx, case, count=True):
                 except Exception:
                     ok = False
                 if not ok:
-                    key = "outside_C21:dask graph differs from NumPy (nested dask object reaches the function unresolved)"
+                    key = "outside_C21:dask graph differs from NumPy " + ("(fused-layer program)" if fused else "(nested dask object reaches the function unresolved)")
                     ctx.notes[key] = ctx.notes.get(key, 0) + 1
                     ex = ctx.notes.setdefault("outside_C21:examples", [])
-                    tag = f"{case['api']} pre={case.get('pre')} post={case.get('post')} optimize={case['optimize']}"
+                    tag = f"{case.get('api') or case.get('expr')} pre={case.get('pre')} post={case.get('post')} optimize={case['optimize']}"
                     if len(ex) < 6 and not any(e.startswith(tag) for e in ex):
                         ex.append(f"{tag} args={case.get('args')} kwargs={case.get('kwargs')}")
                     return None
@@ -415,15 +417,43 @@ def run_case(ctx, case, count=True):
                 fails.append(("records-chunks:groups-not-parallel", f"{label}: {len(groups)} groups for {len(chunks)} chunks"))
         except NotImplementedError:
             ctx.notes["chunks_declined"] = ctx.notes.get("chunks_declined", 0) + 1
+        if fails and case.get("api") == "random" and any(s.startswith("records:block-value-differs") for s, _ in fails) and random_realizations_differ(xs):
+            # decidable narrower class: the members of the group that wrap ONE expression are lowered separately and the random node with a
+            # dask-array parameter is re-instantiated with fresh seeds per lowering (family random:array-param-node-rebuilt): one key, two values
+            fails = [(RANDOM_TWICE_SIG, d + " [two collection objects over this ONE expression compute different values on the dask graph as well]")
+                     if s.startswith("records:block-value-differs") else (s, d) for s, d in fails]
         if count:
             kinds = tuple(sorted({type(n).__name__ for n in nodes.values()}))
             ctx.count(("recs", case["optimize"], len(xs) > 1, kinds))
-            if container:
+            if fused:
+                ctx.count(CF.fused_class(case, CF.fused_paths(xs[0]) if len(xs) == 1 else ()))
+            elif container:
                 ctx.count(CN.container_class(case))
             ctx.notes["records_executed"] = ctx.notes.get("records_executed", 0) + len(recs)
             ctx.notes["sub_records"] = ctx.notes.get("sub_records", 0) + sum("-sub" in r[0] for r in recs)
             ctx.notes["duplicate_record_keys(embedded/literal)"] = ctx.notes.get("duplicate_record_keys(embedded/literal)", 0) + dup
     return fails
+
+
+RANDOM_TWICE_SIG = "records:random-array-param:one-expression-two-realizations"
+
+
+def random_realizations_differ(xs):
+    """True when two fresh collection objects over the expression of some member compute different block values on the DASK GRAPH"""
+    from dask.core import flatten
+
+    for x in xs:
+        try:
+            vals = []
+            for _ in range(2):
+                o = type(x)(x.expr)
+                v, _ = graphs.execute(graphs.to_tasks(dict(o.__dask_graph__())), rng=None, order="fifo")
+                vals.append([graphs.fingerprint(v[k]) for k in flatten(o.__dask_keys__())])
+            if vals[0] != vals[1]:
+                return True
+        except Exception:
+            continue
+    return False
 
 
 FAST_SIG = "fused-fast-records:sampled-block-independence"
@@ -468,8 +498,19 @@ def report_ext(ctx, case, fails):
     by_sig = {}
     for sig, detail in fails:
         by_sig.setdefault(sig, detail)
-    runner = (lambda c: run_case(ctx, c, count=False)) if case["kind"] == "container" else (lambda c: CN.run_history(ctx, c, exec_records, count=False))
-    shrinker = CN.shrink_container if case["kind"] == "container" else CN.shrink_history
+    from harness.props_ext import c21_fused as CF
+
+    if case["kind"] == "samename":
+        # every attempt under a name of its own: the process-wide state left by the failing run must not be what makes it fail
+        fresh = lambda: "%s~%d" % (case["name"].split("~")[0], ctx.rng.randrange(10**9))
+        runner = lambda c: CF.run_samename(ctx, c, exec_records, count=False)
+        shrinker = lambda c, still: CF.shrink_samename(dict(c, name=fresh()), still, fresh)
+    elif case["kind"] in ("container", "fused"):
+        runner = lambda c: run_case(ctx, c, count=False)
+        shrinker = CN.shrink_container if case["kind"] == "container" else CF.shrink_fused
+    else:
+        runner = lambda c: CN.run_history(ctx, c, exec_records, count=False)
+        shrinker = CN.shrink_history
     done = set()
     for sig, detail in by_sig.items():
         small = case
@@ -479,7 +520,12 @@ def report_ext(ctx, case, fails):
                 return bool(f) and any(s == sig for s, _ in f)
 
             small = shrinker(case, still)
+            if case["kind"] == "samename":
+                small = dict(small, name=fresh())
             f2 = runner(small) or []
+            if case["kind"] == "samename" and not any(s == sig for s, _ in f2):
+                small = dict(case, name=fresh())  # the reduced history does not fail on its own: report the whole one
+                f2 = runner(small) or []
             detail = next((d for s, d in f2 if s == sig), detail)
         except Exception:
             small = case
@@ -491,7 +537,7 @@ def report_ext(ctx, case, fails):
 
 
 def report(ctx, case, fails):
-    if case.get("kind") in ("container", "history"):
+    if case.get("kind") in ("container", "history", "fused", "samename"):
         return report_ext(ctx, case, fails)
     by_sig = {}
     for sig, detail in fails:
@@ -770,7 +816,16 @@ def run(ctx, replay=None):
         "history cases: early read (output keys / dask keys / records / graph / chunks / name / compute / lowering) x in-place update (masked, "
         "slice, integer-list setitem with scalar / ndarray / dask values, ufunc out= via np and da, out= from another array, where=, cumsum / "
         "reduction out=, compute_chunk_sizes) enumerated + random sequences with copy.copy forks, dependents built before the update, "
-        "optimize-graph flips: advertised output keys defined by the records and computing the post-update NumPy values (== an unread twin)"
+        "optimize-graph flips: advertised output keys defined by the records and computing the post-update NumPy values (== an unread twin). "
+        "PLUS (harness.props_ext.c21_fused) fused-layer programs: map_blocks / Array.map_blocks / blockwise with functions taking block_id= / block_info= / "
+        "positional ArrayChunkShapeDep / ArrayBlockIdDep arguments (0-3 at once) x extra positional literals x keyword literals with defaults, on ragged "
+        "chunks, below / above fusing and non-fusing neighbours, chained; one source read at several sites with equal / transposed / permuted / broadcast "
+        "block maps (x*x + x.T, (x - x.T)*x, x @ x.T, outer(v, v), 3-d permutations; square and non-square grids); ragged creation ops and map_overlap "
+        "inside fused chains — enumerated cross + seeded random, records ~ dask graph ~ per-block NumPy on ALL blocks, distinct = (operators, reads, "
+        "block maps, post, optimize, ragged, non-square, fast-path taken); same-name histories: 2-3 arrays created in one process under one "
+        "user-supplied name= (from_array / map_blocks(name=)) with different grids and/or data, coarser first / finer first / all created before any walk, "
+        "each consumed through cumsum / cumprod / arg-reductions / map_overlap / reductions / slicing / take / rechunk / reshape / concatenate / "
+        "map_blocks(block_id) — every consumer x both orders enumerated + seeded random, every case under a name of its own"
     )
     ctx.assumptions = [
         "the native Rust extension is absent: _frisky_layer() always falls back to GraphRecordsLayer, the only path checked; "
@@ -790,6 +845,12 @@ def run(ctx, replay=None):
             for sig, detail in CN.run_history(ctx, case, exec_records) or []:
                 ctx.fail(sig, case, detail)
             return
+        if case.get("kind") == "samename":
+            from harness.props_ext import c21_fused as CF
+
+            for sig, detail in CF.run_samename(ctx, case, exec_records) or []:
+                ctx.fail(sig, case, detail)
+            return
         for sig, detail in run_case(ctx, case) or []:
             ctx.fail(sig, case, detail)
         return
@@ -802,9 +863,10 @@ def run(ctx, replay=None):
     with warnings.catch_warnings():
         warnings.simplefilter("ignore")  # "Computing mixed collections …" for every Delayed next to an array expression
         nested_streams(ctx, corr_pairs)
+        fused_streams(ctx, corr_pairs)
     t_run = time.time()
     n = ctx.scale(160, 3000)
-    budget = ctx.scale(26, 440)
+    budget = ctx.scale(26, 400)
     ctx.walk_pairs = []
     corr_skipped = 0
     corr_limit = ctx.scale(2500, 30000)
@@ -898,6 +960,60 @@ def nested_streams(ctx, corr_pairs):
         nrand += 1
         one(CN.random_history(rng), lambda c: CN.run_history(ctx, c, exec_records))
     ctx.notes["history_cases"] = f"{len(cases)} enumerated + {nrand} random in {time.time() - t0:.1f}s"
+
+
+def fused_streams(ctx, corr_pairs):
+    """(c) fused-layer programs (per-block function arguments x extra arguments, one source at several sites, library block
+    literals), (d) same-name histories (harness.props_ext.c21_fused): the enumerated grids in every run + seeded random
+    cases inside a time budget"""
+    import dask
+    from harness.props_ext import c21_fused as CF
+
+    rng = ctx.rng
+    reported = {}
+
+    def one(case, runner):
+        fails = runner(case)
+        if fails:
+            sigs = tuple(sorted({s for s, _ in fails}))
+            reported[sigs] = reported.get(sigs, 0) + 1
+            if reported[sigs] > 2:
+                ctx.notes["further_failing_cases_of_reported_classes"] = ctx.notes.get("further_failing_cases_of_reported_classes", 0) + 1
+                return
+            report(ctx, case, fails)
+
+    t0 = time.time()
+    budget = ctx.scale(7, 40)
+    cases = CF.fused_grid(rng, full=ctx.tier != "quick")
+    nrand = 0
+    for i, case in enumerate(cases):
+        if i in (3, 70):
+            ctx.sample({k: v for k, v in case.items() if k in ("kind", "srcs", "expr", "post", "optimize", "roots")})
+        one(case, lambda c: run_case(ctx, c))
+        if i % 4 == 0 and len(corr_pairs) < 1500:
+            try:
+                with dask.config.set({"array.optimize-graph": case["optimize"]}):
+                    p, _ = flatten_pairs(ctx, [CF.build_fused(case)["y"]], 20)
+                corr_pairs += p
+            except Exception:
+                pass
+    while time.time() - t0 < budget and nrand < ctx.scale(300, 20000):
+        nrand += 1
+        one(CF.random_fused(rng), lambda c: run_case(ctx, c))
+    ctx.notes["fused_cases"] = f"{len(cases)} enumerated + {nrand} random in {time.time() - t0:.1f}s"
+    t0 = time.time()
+    budget = ctx.scale(5, 25)
+    tag = "nm%d" % rng.randrange(10**6)
+    cases = CF.samename_grid(rng, tag)
+    nrand = 0
+    for i, case in enumerate(cases):
+        if i == 0:
+            ctx.sample({k: v for k, v in case.items() if k != "oseed"})
+        one(case, lambda c: CF.run_samename(ctx, c, exec_records))
+    while time.time() - t0 < budget and nrand < ctx.scale(200, 10000):
+        nrand += 1
+        one(CF.random_samename(rng, tag, nrand), lambda c: CF.run_samename(ctx, c, exec_records))
+    ctx.notes["samename_cases"] = f"{len(cases)} enumerated + {nrand} random in {time.time() - t0:.1f}s"
 
 
 def known_probe(ctx):
